@@ -488,29 +488,30 @@ func c02Describe(ops []c02Op) []string {
 func c02OneRun(t *testing.T, rep *vfReport, seedSalt uint64, nNodes, nClients, nFaults, keys int) {
 	rng := vfNewRng(200 + seedSalt)
 	c := clu8NewCluster(t)
+	c.FastRaft = true // leader changes within the fault windows are the point; everything here tolerates them
 	defer c.Close()
 	r := &c02Run{c: c, rep: rep}
 	n0, err := c.NewNode()
 	if err != nil {
-		t.Fatalf("C02 harness: %v", err)
+		clu8Skip("C02 harness: %v", err)
 	}
 	if err := c.Bootstrap(n0); err != nil {
-		t.Fatalf("C02 harness: bootstrap: %v", err)
+		clu8Skip("C02 harness: bootstrap: %v", err)
 	}
 	for i := 1; i < nNodes; i++ {
 		n, err := c.NewNode()
 		if err != nil {
-			t.Fatalf("C02 harness: %v", err)
+			clu8Skip("C02 harness: %v", err)
 		}
-		if err := n0.S.Join(joinRequest(n.Name, n.Addr, true)); err != nil {
-			t.Fatalf("C02 harness: join: %v", err)
+		if err := clu8JoinRetry(c, n, true, 90*time.Second); err != nil {
+			clu8Skip("C02 harness: join: %v", err)
 		}
 		if _, err := n.S.WaitForLeader(60 * time.Second); err != nil {
-			t.Fatalf("C02 harness: %s sees no leader", n.Name)
+			clu8Skip("C02 harness: %s sees no leader", n.Name)
 		}
 	}
-	if err := clu8Exec(n0.S, "CREATE TABLE kv (k INTEGER PRIMARY KEY, v INTEGER)"); err != nil {
-		t.Fatalf("C02 harness: %v", err)
+	if err := clu8ExecLeader(c, 90*time.Second, "CREATE TABLE IF NOT EXISTS kv (k INTEGER PRIMARY KEY, v INTEGER)"); err != nil {
+		clu8Skip("C02 harness: %v", err)
 	}
 	var wg sync.WaitGroup
 	for i := 0; i < nClients; i++ {
@@ -611,27 +612,27 @@ func c02FreshLeaderWindow(t *testing.T, rep *vfReport) {
 	defer c.Close()
 	n0, err := c.NewNode()
 	if err != nil {
-		t.Fatalf("C02 harness: %v", err)
+		clu8Skip("C02 harness: %v", err)
 	}
 	if err := c.Bootstrap(n0); err != nil {
-		t.Fatalf("C02 harness: %v", err)
+		clu8Skip("C02 harness: %v", err)
 	}
 	var fol []*clu8Node
 	for i := 0; i < 2; i++ {
 		n, err := c.NewNode()
 		if err != nil {
-			t.Fatalf("C02 harness: %v", err)
+			clu8Skip("C02 harness: %v", err)
 		}
-		if err := n0.S.Join(joinRequest(n.Name, n.Addr, true)); err != nil {
-			t.Fatalf("C02 harness: join: %v", err)
+		if err := clu8JoinRetry(c, n, true, 90*time.Second); err != nil {
+			clu8Skip("C02 harness: join: %v", err)
 		}
 		if _, err := n.S.WaitForLeader(60 * time.Second); err != nil {
-			t.Fatalf("C02 harness: no leader on %s", n.Name)
+			clu8Skip("C02 harness: no leader on %s", n.Name)
 		}
 		fol = append(fol, n)
 	}
-	if err := clu8Exec(n0.S, "CREATE TABLE kv (k INTEGER PRIMARY KEY, v INTEGER)", "INSERT INTO kv(k, v) VALUES(0, 1)"); err != nil {
-		t.Fatalf("C02 harness: %v", err)
+	if err := clu8ExecLeader(c, 90*time.Second, "CREATE TABLE IF NOT EXISTS kv (k INTEGER PRIMARY KEY, v INTEGER)", "INSERT OR REPLACE INTO kv(k, v) VALUES(0, 1)"); err != nil {
+		clu8Skip("C02 harness: %v", err)
 	}
 	for _, n := range append([]*clu8Node{n0}, fol...) {
 		if !clu8Quiesce(n, 90*time.Second) {
@@ -743,6 +744,124 @@ func c02FreshLeaderWindow(t *testing.T, rep *vfReport) {
 		fmt.Sprintf("write k0=2 acknowledged by the old leader, old leader stopped, two concurrent linearizable reads on the new leader %s while its term no-op could not be replicated", nl.Name))
 }
 
+// c02DeposedLeader: a leader that has been deposed but has not noticed must not serve a
+// linearizable read. All nodes run the same (long: 4 s) heartbeat / election / leader-lease
+// timeouts so that the window "deposed but still believes it is leader" is wide. The leader L
+// serves a strong and a linearizable read, is then cut off from the other two; node B is told
+// to start an election at once (a TimeoutNow RPC, what a leadership transfer sends), wins with
+// the third node's vote, commits and acknowledges a write; then a linearizable read is sent to
+// L. It must fail (VerifyLeader cannot reach a quorum) or return the new value.
+func c02DeposedLeader(t *testing.T, rep *vfReport) bool {
+	c := clu8NewCluster(t)
+	const to = 4 * time.Second
+	c.Tune = func(s *Store) { s.HeartbeatTimeout, s.ElectionTimeout, s.LeaderLeaseTimeout = to, to, to }
+	defer c.Close()
+	n0, err := c.NewNode()
+	if err != nil {
+		clu8Skip("C02 harness: %v", err)
+	}
+	if err := c.Bootstrap(n0); err != nil {
+		clu8Skip("C02 harness: %v", err)
+	}
+	var fol []*clu8Node
+	for i := 0; i < 2; i++ {
+		n, err := c.NewNode()
+		if err != nil {
+			clu8Skip("C02 harness: %v", err)
+		}
+		if err := clu8JoinRetry(c, n, true, 90*time.Second); err != nil {
+			clu8Skip("C02 harness: join: %v", err)
+		}
+		if _, err := n.S.WaitForLeader(60 * time.Second); err != nil {
+			clu8Skip("C02 harness: no leader on %s", n.Name)
+		}
+		fol = append(fol, n)
+	}
+	if err := clu8ExecLeader(c, 90*time.Second, "CREATE TABLE IF NOT EXISTS kv (k INTEGER PRIMARY KEY, v INTEGER)"); err != nil {
+		clu8Skip("C02 harness: %v", err)
+	}
+	if !n0.S.IsLeader() {
+		rep.Count("deposed-leader:aborted:leadership-moved-during-setup")
+		return false
+	}
+	var clock atomic.Int64
+	var ops []c02Op
+	add := func(kind string, s *Store, name string, val int64, lvl proto.ConsistencyLevel) (bool, error) {
+		op := c02Op{kind: kind, key: 0, val: val, node: name, inv: clock.Add(1)}
+		if kind == "w" {
+			ok, _, err := c02Write(s, 0, val)
+			if !ok {
+				return false, err
+			}
+		} else {
+			v, eff, err := c02Read(s, 0, lvl)
+			if err != nil {
+				return false, err
+			}
+			op.val, op.level = v, eff.String()
+		}
+		op.resp = clock.Add(1)
+		ops = append(ops, op)
+		return true, nil
+	}
+	if ok, err := add("w", n0.S, n0.Name, 1, 0); !ok {
+		rep.Note("deposed leader: first write failed: %v", err)
+		return false
+	}
+	for _, f := range fol {
+		deadline := time.Now().Add(60 * time.Second)
+		for f.S.fsmIdx.Load() < n0.S.fsmIdx.Load() && time.Now().Before(deadline) {
+			time.Sleep(10 * time.Millisecond)
+		}
+	}
+	if ok, err := add("strong", n0.S, n0.Name, 0, proto.ConsistencyLevel_STRONG); !ok {
+		rep.Note("deposed leader: strong read failed: %v", err)
+		return false
+	}
+	if ok, err := add("lin", n0.S, n0.Name, 0, proto.ConsistencyLevel_LINEARIZABLE); !ok {
+		rep.Note("deposed leader: linearizable read on the healthy leader failed: %v", err)
+		return false
+	}
+	tCut := time.Now()
+	c.Net.Isolate(n0.Name)
+	b, third := fol[0], fol[1]
+	var resp raft.TimeoutNowResponse
+	if err := third.S.raftTn.TimeoutNow(raft.ServerID(b.Name), raft.ServerAddress(b.Addr), &raft.TimeoutNowRequest{RPCHeader: raft.RPCHeader{
+		ProtocolVersion: raft.ProtocolVersionMax, ID: []byte(third.Name), Addr: []byte(third.Addr)}}, &resp); err != nil {
+		rep.Note("deposed leader: TimeoutNow could not be delivered: %v", err)
+		return false
+	}
+	deadline := time.Now().Add(3 * time.Second)
+	for !b.S.IsLeader() && time.Now().Before(deadline) {
+		time.Sleep(5 * time.Millisecond)
+	}
+	if !b.S.IsLeader() {
+		rep.Note("deposed leader: %s did not win the immediate election", b.Name)
+		return false
+	}
+	if ok, err := add("w", b.S, b.Name, 2, 0); !ok {
+		rep.Note("deposed leader: write on the new leader failed: %v", err)
+		return false
+	}
+	stillBelieves := n0.S.IsLeader()
+	elapsed := time.Since(tCut)
+	rep.Count(fmt.Sprintf("deposed-leader:old-leader-still-believes-it-leads=%v", stillBelieves))
+	okRead, rerr := add("lin", n0.S, n0.Name, 0, proto.ConsistencyLevel_LINEARIZABLE)
+	if okRead {
+		rep.Count("deposed-leader:read-on-deposed-leader-served")
+	} else {
+		rep.Count("deposed-leader:read-on-deposed-leader-refused:" + c02ErrClass(rerr))
+	}
+	c.Net.HealAll()
+	rep.Case(fmt.Sprintf("deposed-leader|believes=%v|served=%v", stillBelieves, okRead), stillBelieves)
+	rep.Sample(map[string]interface{}{"scenario": "deposed-leader", "new_leader": b.Name, "old_leader_believed_it_led": stillBelieves,
+		"write_acked_after_cut": elapsed.Round(time.Millisecond).String(), "read_on_old_leader": fmt.Sprint(rerr), "history": c02Describe(ops)})
+	c02Verdict(t, rep, "deposed-leader-serves-linearizable-read", ops, 1,
+		fmt.Sprintf("leader %s served a strong and a linearizable read, was cut off, %s was elected at once (TimeoutNow) and acknowledged write k0=2 %s after the cut; a linearizable read was then sent to %s, which still believed it was leader: %v",
+			n0.Name, b.Name, elapsed.Round(time.Millisecond), n0.Name, stillBelieves))
+	return stillBelieves
+}
+
 type c02Dialer struct{}
 
 func (c02Dialer) Dial(addr string, timeout time.Duration) (net.Conn, error) {
@@ -761,32 +880,37 @@ func c02ForwardedPath(t *testing.T, rep *vfReport) bool {
 	defer c.Close()
 	n0, err := c.NewNode()
 	if err != nil {
-		t.Fatalf("C02 harness: %v", err)
+		clu8Skip("C02 harness: %v", err)
 	}
 	if err := c.Bootstrap(n0); err != nil {
-		t.Fatalf("C02 harness: %v", err)
+		clu8Skip("C02 harness: %v", err)
 	}
 	f, err := c.NewNode()
 	if err != nil {
-		t.Fatalf("C02 harness: %v", err)
+		clu8Skip("C02 harness: %v", err)
 	}
-	if err := n0.S.Join(joinRequest(f.Name, f.Addr, true)); err != nil {
-		t.Fatalf("C02 harness: join: %v", err)
+	if err := clu8JoinRetry(c, f, true, 90*time.Second); err != nil {
+		clu8Skip("C02 harness: join: %v", err)
 	}
 	if _, err := f.S.WaitForLeader(60 * time.Second); err != nil {
-		t.Fatalf("C02 harness: no leader on follower")
+		clu8Skip("C02 harness: no leader on follower")
 	}
-	if err := clu8Exec(n0.S, "CREATE TABLE kv (k INTEGER PRIMARY KEY, v INTEGER)"); err != nil {
-		t.Fatalf("C02 harness: %v", err)
+	if err := clu8ExecLeader(c, 90*time.Second, "CREATE TABLE IF NOT EXISTS kv (k INTEGER PRIMARY KEY, v INTEGER)"); err != nil {
+		clu8Skip("C02 harness: %v", err)
+	}
+	if !n0.S.IsLeader() {
+		rep.Note("forwarded path: leadership moved during setup [%s]", fmt.Sprint(n0.S.raft.State()))
+		rep.Count("forwarded-path:aborted:leadership-moved-during-setup")
+		return false
 	}
 	// the leader's inter-node service and the follower's client
 	ln, err := net.Listen("tcp", "127.0.0.1:0")
 	if err != nil {
-		t.Fatalf("C02 harness: %v", err)
+		clu8Skip("C02 harness: %v", err)
 	}
 	svc := cluster.New(ln, n0.S, n0.S, nil)
 	if err := svc.Open(); err != nil {
-		t.Fatalf("C02 harness: cluster service: %v", err)
+		clu8Skip("C02 harness: cluster service: %v", err)
 	}
 	defer svc.Close()
 	client := cluster.NewClient(c02Dialer{}, 5*time.Second)
@@ -924,21 +1048,21 @@ func c02KillRun(t *testing.T, rep *vfReport, seedSalt uint64) {
 	r := &c02Run{c: c, rep: rep}
 	n0, err := c.NewNode()
 	if err != nil {
-		t.Fatalf("C02 harness: %v", err)
+		clu8Skip("C02 harness: %v", err)
 	}
 	if err := c.Bootstrap(n0); err != nil {
-		t.Fatalf("C02 harness: %v", err)
+		clu8Skip("C02 harness: %v", err)
 	}
 	n1, err := c.NewNode()
 	if err != nil {
-		t.Fatalf("C02 harness: %v", err)
+		clu8Skip("C02 harness: %v", err)
 	}
-	if err := n0.S.Join(joinRequest(n1.Name, n1.Addr, true)); err != nil {
-		t.Fatalf("C02 harness: %v", err)
+	if err := clu8JoinRetry(c, n1, true, 90*time.Second); err != nil {
+		clu8Skip("C02 harness: %v", err)
 	}
 	dir, err := os.MkdirTemp("", "c02-child-")
 	if err != nil {
-		t.Fatalf("C02 harness: %v", err)
+		clu8Skip("C02 harness: %v", err)
 	}
 	defer os.RemoveAll(dir)
 	r.remoteRaft, r.remoteSvc = c02FreePort(), c02FreePort()
@@ -976,8 +1100,8 @@ func c02KillRun(t *testing.T, rep *vfReport, seedSalt uint64) {
 		rep.Note("kill -9 run: join of the child failed: %v", err)
 		return
 	}
-	if err := clu8Exec(n0.S, "CREATE TABLE kv (k INTEGER PRIMARY KEY, v INTEGER)"); err != nil {
-		t.Fatalf("C02 harness: %v", err)
+	if err := clu8ExecLeader(c, 90*time.Second, "CREATE TABLE IF NOT EXISTS kv (k INTEGER PRIMARY KEY, v INTEGER)"); err != nil {
+		clu8Skip("C02 harness: %v", err)
 	}
 	keys := 4
 	var wg sync.WaitGroup
@@ -1093,25 +1217,35 @@ func TestVerifC02FwdLoop(t *testing.T) {
 func TestVerifC02(t *testing.T) {
 	rep := vfNewReport("C02", "directed scenarios (forwarded path through cluster.Client/Service with a client-side timeout; fresh-leader window; a member in a process of its own that becomes leader and is killed with SIGKILL, 5 times per run) and live 3-node (thorough: also 5-node) clusters behind a fault-injecting transport layer; 4-6 concurrent clients issuing keyed writes (unique values), strong reads and linearizable reads to any node with one-hop forwarding to the named leader; seeded fault schedules (leader isolated, follower isolated, leader in a minority, stepdown, follower/leader stop+restart); one case per run = one recorded history; non-trivial when it contains acked writes, strong and linearizable reads and at least one fault; the linearization order found by search is re-checked by the Lean-verified checkWitness")
 	defer rep.Write()
+	tPhase := time.Now()
+	phase := func(name string) {
+		rep.Count(fmt.Sprintf("phase-seconds:%s=%d", name, int(time.Since(tPhase).Seconds())))
+		tPhase = time.Now()
+	}
+	defer func() { phase("random-runs"); clu8Floor(t, rep) }()
 	c02SelfTest(t, rep)
 	for attempt := 0; attempt < 3; attempt++ {
 		done := false
-		if fin, dump := clu8Guard(10*time.Minute, func() { done = c02ForwardedPath(t, rep) }); !fin {
-			rep.Note("C02: forwarded-path scenario abandoned; goroutines: %s", dump)
-		}
+		clu8Case(rep, "forwarded-path", 10*time.Minute, func() { done = c02ForwardedPath(t, rep) })
 		if done {
 			break
 		}
 	}
-	for i := 0; i < vfScale(1, 4); i++ {
-		if fin, dump := clu8Guard(10*time.Minute, func() { c02FreshLeaderWindow(t, rep) }); !fin {
-			rep.Note("C02: fresh-leader window scenario abandoned; goroutines: %s", dump)
+	phase("forwarded-path")
+	for attempt := 0; attempt < 2; attempt++ {
+		done := false
+		clu8Case(rep, "deposed-leader", 10*time.Minute, func() { done = c02DeposedLeader(t, rep) })
+		if done {
+			break
 		}
 	}
+	phase("deposed-leader")
 	for i := 0; i < vfScale(1, 4); i++ {
-		if fin, dump := clu8Guard(15*time.Minute, func() { c02KillRun(t, rep, uint64(i)) }); !fin {
-			rep.Note("C02: kill -9 run abandoned; goroutines: %s", dump)
-		}
+		clu8Case(rep, "fresh-leader-window", 10*time.Minute, func() { c02FreshLeaderWindow(t, rep) })
+	}
+	phase("fresh-leader-window")
+	for i := 0; i < vfScale(0, 4); i++ { // thorough tier only (keeps the quick tier within its time budget)
+		clu8Case(rep, "kill-9", 15*time.Minute, func() { c02KillRun(t, rep, uint64(i)) })
 	}
 	runs := vfScale(2, 10)
 	for i := 0; i < runs; i++ {
@@ -1119,9 +1253,6 @@ func TestVerifC02(t *testing.T) {
 		if vfThorough() && i%3 == 2 {
 			nodes = 5
 		}
-		if fin, dump := clu8Guard(20*time.Minute, func() { c02OneRun(t, rep, uint64(i), nodes, vfScale(4, 6), vfScale(7, 20), 4) }); !fin {
-			rep.Note("C02: a run did not finish within 20 min and was abandoned; goroutines: %s", dump)
-			rep.Count("runs-abandoned-by-watchdog")
-		}
+		clu8Case(rep, "random-run", 20*time.Minute, func() { c02OneRun(t, rep, uint64(i), nodes, vfScale(4, 6), vfScale(7, 20), 4) })
 	}
 }
